@@ -60,4 +60,18 @@ def rules(t):
     if not pops: r.bad("pop", None, "unordered delivery is not messages.pop_first()")
     out.append(r)
     out.append(shared.ack_once(t, "C02.d"))
+    rr_ = RuleResult("C02.e", "a duplicate of a message the channel already holds is ignored, never refused with a budget error that drops the connection (shared with C09.h)", floor=1)
+    import rules.C09 as _SRC
+    for x_ in _SRC.rules(t):
+        if x_.id == "C09.h":
+            rr_.sites += x_.sites
+            for v_ in x_.violations: rr_.bad(v_.key, v_.site, v_.msg)
+    out.append(rr_)
+    rr_ = RuleResult("C02.f", "the reassembled length of a sliced message does not depend on the arrival order of its slices (shared with C03.g)", floor=1)
+    import rules.C03 as _SRC
+    for x_ in _SRC.rules(t):
+        if x_.id == "C03.g":
+            rr_.sites += x_.sites
+            for v_ in x_.violations: rr_.bad(v_.key, v_.site, v_.msg)
+    out.append(rr_)
     return out
